@@ -55,6 +55,10 @@ package ecs
 //@   props C04
 //@   ensures meets(a, b) == meetsBits(a, b)
 
+// bitU is specBit behind an uninterpreted name, so that quantified facts about mask bits have a usable trigger.
+//@ uf bitU(m Mask, i uint8) bool
+//@ axiom bitU: forall m Mask, i uint8 :: {bitU(m, i)} bitU(m, i) == specBit(m, i)
+
 //@ func Mask.Get(b, bit) (r)
 //@   props C04
 //@   requires validID(bit.id)
@@ -63,7 +67,8 @@ package ecs
 //@ func Mask.Set(b, bit, value)
 //@   props C04
 //@   requires validID(bit.id)
-//@   ensures forall! i uint8 :: specBit(*b, i) == ite(i == bit.id && validID(i), value, old(specBit(*b, i)))
+//@   ensures[expanded] forall! i uint8 :: specBit(*b, i) == ite(i == bit.id && validID(i), value, old(specBit(*b, i)))
+//@   ensures[symbolic] forall i uint8 :: {bitU(*b, i)} bitU(*b, i) == ite(i == bit.id && validID(i), value, old(bitU(*b, i)))
 //@   modifies b.bits
 
 //@ func Mask.Not(b) (r)
@@ -294,6 +299,7 @@ package ecs
 //@   bitPoolInv(&m.bitPool) && (forall! b uint8 :: specBit(m.locks, b) == bitInUse(&m.bitPool, b))
 
 //@ func lockMask.Lock(m) (l)
+//@   flag use_expanded
 //@   props C09
 //@   requires lockInv(m)
 //@   panics_if m.bitPool.available == 0 && int(m.bitPool.length) >= MaskTotalBits
@@ -304,6 +310,7 @@ package ecs
 //@   modifies m.locks.bits, *(&m.bitPool)
 
 //@ func lockMask.Unlock(m, l)
+//@   flag use_expanded
 //@   props C09
 //@   requires lockInv(m) && validID(l)
 //@   panics_if !specBit(m.locks, l)
@@ -319,6 +326,7 @@ package ecs
 //@   ensures r == (exists! b uint8 :: specBit(m.locks, b))
 
 //@ func lockMask.Reset(m)
+//@   flag use_expanded
 //@   props C09 C15
 //@   ensures lockInv(m) && maskEmpty(m.locks)
 //@   modifies m.locks.bits, *(&m.bitPool)
@@ -401,6 +409,7 @@ package ecs
 //@   ensures tp == r.Types[int(id)]
 
 //@ func componentRegistry.registerComponent(r, tp, totalBits) (id)
+//@   flag use_expanded
 //@   props C16
 //@   requires regInv(r) && !mapHas(r.Components, tp.val) && 0 < totalBits && totalBits <= MaskTotalBits
 //@   panics_if regCount(r) >= totalBits
@@ -435,6 +444,7 @@ package ecs
 //@   modifies r.Components[ALL], r.Types[ALL], r.Used.bits, r.IsRelation.bits, r.IDs, r.IDs[ALL]
 
 //@ func componentRegistry.unregisterLastComponent(r)
+//@   flag use_expanded
 //@   props C16 C09
 //@   requires regInv(r) && regCount(r) > 0
 //@   hint regCount(r) == old(regCount(r)) - 1
@@ -1049,3 +1059,34 @@ package ecs
 //@   inv curOKF(q) && 1 <= step && step < 2147483648 && posF(q) + step == old(posF(q)) + n
 //@   inv lockInv(&q.world.locks) && specBit(q.world.locks.locks, q.lockBit) && q.lockBit == old(q.lockBit) && q.world == old(q.world) && q.isFiltered
 //@   inv q.archetypes == old(q.archetypes)
+
+// ---------------------------------------------------------------------------------------------
+// C10 / C01 / C05 — exchange mask, relation checks
+// ---------------------------------------------------------------------------------------------
+
+// has(ids, n, i): component i occurs among the first n entries of ids
+//@ pred idsHave(ids []ID, n int, i uint8) bool = exists k int :: {ids[k]} 0 <= k && k < n && ids[k].id == i
+//@ pred idsDistinct(ids []ID) bool = forall j int, k int :: {ids[j], ids[k]} 0 <= j && j < k && k < len(ids) ==> ids[j].id != ids[k].id
+//@ pred idsValid(ids []ID) bool = forall k int :: {ids[k]} 0 <= k && k < len(ids) ==> validID(ids[k].id)
+
+// The new component set of an exchange: (mask minus rem) plus add. Illegal argument classes panic:
+// removing an absent component, adding a present one, duplicates within rem or within add.
+//@ func World.getExchangeMask(w, mask, add, rem) (r)
+//@   props C10 C01
+//@   requires idsValid(add) && idsValid(rem) && len(w.registry.Types) == MaskTotalBits
+//@   flag may_panic panic_clean
+//@   ensures forall i uint8 :: {bitU(r, i)} bitU(r, i) == ((bitU(mask, i) && !idsHave(rem, len(rem), i)) || idsHave(add, len(add), i))
+//@   ensures forall k int :: {rem[k]} 0 <= k && k < len(rem) ==> bitU(mask, rem[k].id)
+//@   ensures forall k int :: {add[k]} 0 <= k && k < len(add) ==> !bitU(mask, add[k].id) || idsHave(rem, len(rem), add[k].id)
+//@   ensures idsDistinct(rem) && idsDistinct(add)
+//@   loop #1
+//@   inv forall i uint8 :: {bitU(mask, i)} bitU(mask, i) == (old(bitU(mask, i)) && !idsHave(rem, $i, i))
+//@   inv forall k int :: {rem[k]} 0 <= k && k < $i ==> old(bitU(mask, rem[k].id))
+//@   inv forall j int, k int :: {rem[j], rem[k]} 0 <= j && j < k && k < $i ==> rem[j].id != rem[k].id
+//@   loop #2
+//@   inv forall i uint8 :: {bitU(mask, i)} bitU(mask, i) && !(old(bitU(mask, i)) && !idsHave(rem, len(rem), i)) ==> idsHave(add, $i, i)
+//@   inv forall i uint8, j int :: {add[j], bitU(mask, i)} 0 <= j && j < $i && add[j].id == i ==> bitU(mask, i)
+//@   inv forall i uint8 :: {bitU(mask, i)} old(bitU(mask, i)) && !idsHave(rem, len(rem), i) ==> bitU(mask, i)
+//@   inv forall k int :: {add[k]} 0 <= k && k < len(add) ==> (old(bitU(mask, add[k].id)) && !idsHave(rem, len(rem), add[k].id) ==> bitU(mask, add[k].id))
+//@   inv forall k int :: {add[k]} 0 <= k && k < $i ==> !old(bitU(mask, add[k].id)) || idsHave(rem, len(rem), add[k].id)
+//@   inv forall j int, k int :: {add[j], add[k]} 0 <= j && j < k && k < $i ==> add[j].id != add[k].id
